@@ -2017,6 +2017,17 @@ def c01_checks(repo: Repo, tier: str, res: CheckResult, seed: int) -> None:
                                 f"name_mapping configuration #{r['idx']} {cdesc}: the dumper writes field `{f}` to "
                                 f"{sorted(map(list, written[f]))} but the loader of the same retort takes it from "
                                 f"{sorted(map(list, reads[f]))}: load(dump(x)) cannot give the field back", 0, extra={"cfg": r["cfg"]}))
+        # a container node the dumper writes only under a condition is a node the loader may not find: the emitted loader reaches
+        # every field below it through that node (no program of the family tolerates a missing intermediate node)
+        for npath, cond in SD.node_conds.items():
+            below = sorted(f for f, ps in reads.items() if any(tuple(p[:len(npath)]) == tuple(npath) for p in ps))
+            if below:
+                res.add(Finding("C01", "ROUNDTRIP.node-dumped-conditionally", NL, "BuiltinStructureMaker",
+                                f"node {list(npath)} written only when `{cond}`"[:160],
+                                f"name_mapping configuration #{r['idx']} {cdesc}: the dumper writes the container node {list(npath)} only "
+                                f"when `{cond}`, but the loader of the same retort reads the fields {below} through that node and reports "
+                                "a missing key when it is absent: load(dump(x)) raises for every x whose dump omits the node", 0,
+                                extra={"cfg": r["cfg"]}))
         # container kinds along the written paths: an int step of the dumper is an int step of the loader
         lkinds = {tuple(p[:i]) + (type(p[i]).__name__,) for ps in reads.values() for p in ps for i in range(len(p))}
         dkinds = {tuple(p[:i]) + (type(p[i]).__name__,) for f, ps in written.items() if f in reads for p in ps for i in range(len(p))}
@@ -2163,6 +2174,21 @@ def c17_checks(repo: Repo, tier: str, res: CheckResult, seed: int) -> None:
                     if k.value.id[2:] != field_of(k.arg):
                         wrong.append(f"parameter `{k.arg}` receives `{k.value.id}`")
             res.evaluated(f"G:kinds-ctor:{'/'.join(key)}:{kind}", True)
+            # a field with a default that the loader does NOT fill in for an omitted value is left to the constructor: the twins
+            # agree only if the constructor of this kind has that default itself (a SQLAlchemy constructor applies no column
+            # defaults, they are applied at flush; TypedDict has no constructor defaults at all)
+            has_default = {field_of(p[0]): (len(p) > 2 and p[2]) for p in rec["ctor_params"]}
+            read_ids = {r_.field_id for r_ in S_.reads}
+            for fname, _ft, fdef in rec["fields"]:
+                if fdef is None or fdef[0] not in "vf" or fname not in read_ids:
+                    continue
+                if fname not in S_.defaults and not has_default.get(fname, False):
+                    res.add(Finding("C17", "KIND.default-left-to-constructor", "adaptix/_internal/morphing/model/loader_gen.py", "_is_packed_field",
+                                    f"{kind}: default of `{fname}` ({fdef[0]}) neither filled by the loader nor known to the constructor",
+                                    f"logical model {key[0]} as {kind} under `{key[1]}`: the field `{fname}` has a default ({fdef[1]}) but the "
+                                    f"emitted loader does not supply it when the field is omitted (it is only not passed), and the constructor "
+                                    f"of the {kind} model has no default for it (parameters {[p[0] for p in rec['ctor_params']]}): an input "
+                                    "without the field loads to an object that differs from the one its dataclass twin gets", 0))
             if wrong:
                 res.add(Finding("C17", "KIND.constructor-binding", "adaptix/_internal/morphing/model/loader_gen.py", "_gen_constructor_call",
                                 f"{kind}: " + "; ".join(wrong)[:150],
@@ -2334,8 +2360,13 @@ _G_DUMPER = {"Decimal": "__str__", "bytes": "bytes_base64_dumper", "Book": "mode
 _G_TOP = {"List": "iter_", "Dict": "dict_", "Optional": "optional", "Union": "union", "list": "iter_", "dict": "dict_"}
 
 
-def _g_subst(expr: str, pm: Dict[str, str]) -> str:
-    return re.sub(r"[A-Za-z_]\w*", lambda mt: pm.get(mt.group(0), mt.group(0)), expr)
+def _g_subst(expr: str, pm: Dict[str, object]) -> str:
+    if any(isinstance(v, list) for v in pm.values()):
+        mt = re.fullmatch(r"(\w+)\[(.*)\]", expr.strip())
+        if mt:
+            inner = _g_subst_list(_g_split_args(mt.group(2)), pm)
+            return f"{mt.group(1)}[{', '.join(inner) if inner else '()'}]"
+    return re.sub(r"[A-Za-z_]\w*", lambda mt: pm[mt.group(0)] if isinstance(pm.get(mt.group(0)), str) else mt.group(0), expr)
 
 
 def _g_split_args(s: str) -> List[str]:
@@ -2355,27 +2386,59 @@ def _g_split_args(s: str) -> List[str]:
     return out
 
 
+def _g_bind(params: List[str], args: List[str]) -> Dict[str, object]:
+    """type variable -> argument; a variadic parameter (`*Ts`) takes every argument the others leave (PEP 646)"""
+    var = [i for i, p in enumerate(params) if p.startswith("*")]
+    if not var:
+        return dict(zip(params, args))
+    i = var[0]
+    after = len(params) - i - 1
+    pm: Dict[str, object] = dict(zip(params[:i], args[:i]))
+    pm.update(zip(params[i + 1:], args[len(args) - after:] if after else []))
+    pm[params[i][1:]] = list(args[i:len(args) - after])
+    return pm
+
+
+def _g_subst_list(args: List[str], pm: Dict[str, object]) -> List[str]:
+    out: List[str] = []
+    for a in args:
+        a = a.strip()
+        if a.startswith("*") and isinstance(pm.get(a[1:]), list):
+            out += pm[a[1:]]       # the unpacked TypeVarTuple is replaced with the arguments bound to it, in place
+        else:
+            out.append(_g_subst(a, pm))
+    return out
+
+
 def _g_resolve(classes: Dict[str, Tuple], name: str, args: List[str]) -> Dict[str, str]:
-    """field -> annotation with every type variable replaced, written from the property statement: bases are resolved with the
-    arguments the child passes, the child's own annotation overrides (shadows) an inherited one, a bare generic uses the
-    documented implicit parameters"""
+    return {f: alts[0] for f, alts in _g_resolve_alts(classes, name, args).items()}
+
+
+def _g_resolve_alts(classes: Dict[str, Tuple], name: str, args: List[str]) -> Dict[str, List[str]]:
+    """field -> acceptable annotations with every type variable replaced, written from the property statement: bases are resolved
+    with the arguments the child passes, the child's own annotation overrides (shadows) an inherited one, a bare generic uses the
+    documented implicit parameters. More than one entry only where the hierarchy itself is inconsistent: the class that declares
+    the field is reached through several bases that bind its variable differently (D(B[int], C[str]) for a field of the common
+    root neither re-annotates) -- the property does not say which binding wins there, so every one is accepted (first listed
+    base first)."""
     params, bases, fields = classes[name]
     if params and not args:
-        args = [_G_IMPLICIT[p] for p in params]
-    pm = dict(zip(params, args))
-    out: Dict[str, str] = {}
+        # a bare TypeVarTuple stands for `*tuple[Any, ...]`
+        args = ["*Tuple[Any, ...]" if p.startswith("*") else _G_IMPLICIT[p] for p in params]
+    pm = _g_bind(params, args)
+    out: Dict[str, List[str]] = {}
     mro = _g_mro(classes, name)
     for bname, bargs in reversed(bases):
-        sub = _g_resolve(classes, bname, [_g_subst(a, pm) for a in bargs])
+        sub = _g_resolve_alts(classes, bname, _g_subst_list(bargs, pm))
         bmro = _g_mro(classes, bname)
-        for f, t in sub.items():
+        for f, alts in sub.items():
             # the annotation of f is the one of the first class of the MRO that declares it; it is bound through the base
             # that reaches that class (diamonds: D(B[int], C[int]) with C overriding a field of the common root)
             definer = next((c for c in mro[1:] if f in classes[c][2]), None)
             if definer is None or definer in bmro:
-                out[f] = t
+                out[f] = alts + [a for a in out.get(f, []) if a not in alts]
     for f, t in fields.items():
-        out[f] = _g_subst(t, pm)
+        out[f] = [_g_subst(t, pm)]
     return out
 
 
@@ -2420,7 +2483,7 @@ def _g_pipe(texpr: str) -> str:
 
 
 def _g_leaves(texpr: str, table: Dict[str, str]) -> List[str]:
-    texpr = _g_pipe(texpr.strip())
+    texpr = _g_pipe(texpr.strip()).lstrip("*")
     mt = re.fullmatch(r"(\w+)\[(.*)\]", texpr)
     if mt:
         out: List[str] = []
@@ -2452,7 +2515,8 @@ def c16_checks(repo: Repo, tier: str, res: CheckResult, seed: int) -> None:
         q = r["query"]
         mt = re.fullmatch(r"(\w+)(?:\[(.*)\])?", q)
         cname, args = mt.group(1), _g_split_args(mt.group(2) or "")
-        want = _g_resolve(classes, cname, args)
+        want_alts = _g_resolve_alts(classes, cname, args)
+        want = {f: alts[0] for f, alts in want_alts.items()}
         n += 1
         res.evaluated(f"G:generics:{r['spec']}:{q}", True)
         for what, table, known in (("loader", _G_LOADER, known_l), ("dumper", _G_DUMPER, known_d)):
@@ -2463,24 +2527,26 @@ def c16_checks(repo: Repo, tier: str, res: CheckResult, seed: int) -> None:
                 res.add(Finding("C16", "GENERIC.refused", GR, "GenericResolver", f"{r['spec']}:{q}:{what}",
                                 f"no {what} for {q} ({r['spec']}): {got['error']}", 0))
                 continue
-            for f, texpr in want.items():
-                texpr = _g_pipe(texpr)
+            for f, alts in want_alts.items():
                 n_fields += 1
                 b = got["bindings"].get(f"{what}_{f}")
                 flat = _g_flat(b) if b is not None else []
-                # pre-order of the closure tree (cells in free-variable order: key_* before value_*), NOT sorted: the position of
-                # an argument matters (Dict[K, List[V]] vs Dict[V, List[K]])
-                got_leaves = [x for x in flat if x in known]
-                exp_leaves = _g_leaves(texpr, table)
-                if "Union[" in texpr:      # the cases of a union are a set (normalisation may reorder them)
-                    got_leaves, exp_leaves = sorted(got_leaves), sorted(exp_leaves)
-                if what == "dumper":
-                    got_leaves = [x for x in got_leaves if x != "<lambda>"]
-                ok = got_leaves == exp_leaves
-                texpr = _g_pipe(texpr)
-                top_kw = _G_TOP.get(texpr.split("[")[0]) if "[" in texpr else None
-                if ok and top_kw and what == "loader" and not (flat and top_kw in flat[0]):
-                    ok = False
+                ok = False
+                for alt in reversed(alts):      # the preferred resolution last: it is the one reported
+                    texpr = _g_pipe(alt)
+                    # pre-order of the closure tree (cells in free-variable order: key_* before value_*), NOT sorted: the position
+                    # of an argument matters (Dict[K, List[V]] vs Dict[V, List[K]])
+                    got_leaves = [x for x in flat if x in known]
+                    exp_leaves = _g_leaves(texpr, table)
+                    if "Union[" in texpr:      # the cases of a union are a set (normalisation may reorder them)
+                        got_leaves, exp_leaves = sorted(got_leaves), sorted(exp_leaves)
+                    if what == "dumper":
+                        got_leaves = [x for x in got_leaves if x != "<lambda>"]
+                    ok_alt = got_leaves == exp_leaves
+                    top_kw = _G_TOP.get(texpr.split("[")[0]) if "[" in texpr else None
+                    if ok_alt and top_kw and what == "loader" and not (flat and top_kw in flat[0]):
+                        ok_alt = False
+                    ok = ok or ok_alt
                 if not ok:
                     res.add(Finding("C16", f"GENERIC.{what}-field-type", GR, "GenericResolver",
                                     f"{r['spec']}:{q}.{f}: expected {texpr}",
